@@ -28,15 +28,11 @@ Print Assumptions C09_titer.
 Theorem C09_titer_spec : forall m t x,
   In x (dec_tuples m t 0) <->
   length x = t /\ Sorted lt (rev x) /\ Forall (fun i => i < m) x.
-Proof.
-  intros m t x. rewrite dec_tuples_in, incr_from_sorted. split.
-  - intros [H1 [[H2 _] H3]]. auto.
-  - intros [H1 [H2 H3]]. repeat split; try assumption. apply Forall_forall. intros; lia.
-Qed.
+Proof. exact dec_tuples_spec. Qed.
 Print Assumptions C09_titer_spec.
 
 Theorem C09_titer_nodup : forall m t, NoDup (dec_tuples m t 0).
-Proof. intros. apply dec_tuples_nodup. Qed.
+Proof. exact dec_tuples_nodup0. Qed.
 Print Assumptions C09_titer_nodup.
 
 (* t = 0: one empty tuple, then None.  t > m under overflow checks (dev profile): the tuple
